@@ -567,6 +567,19 @@ func honest(a *hx.Args, res *hx.Result) {
 				return
 			}
 			cred, ms, nonrev = c2, c2.Attributes, true
+			if ci%16 == 5 {
+				// the credential is read back from storage (JSON) before it is shown
+				variant = "issued+randomblind+nonrev+stored"
+				bts, err := json.Marshal(c2)
+				if err != nil {
+					hx.Fatal("marshal credential: %v", err)
+				}
+				stored := &gabi.Credential{Pk: pk}
+				if err := json.Unmarshal(bts, stored); err != nil {
+					hx.Fatal("unmarshal credential: %v", err)
+				}
+				cred, ms = stored, stored.Attributes
+			}
 			if ci%8 == 1 {
 				// the wallet's normal flow: a commitment is prepared in the background, somebody else is revoked, the witness is
 				// updated - the next proof uses the REFRESHED commitment
